@@ -1,6 +1,8 @@
 import Model.Net
 import Proofs.NetUdp
 import Proofs.NetStream
+import Proofs.NetAsync
+import Proofs.NetBits
 /-!
 # C18 — A network exchange returns only a genuine response; stream framing is exact
 
@@ -9,8 +11,11 @@ Theorems of record.  `Model.Net` follows `dns/query.py` (`_addresses_equal`, `_m
 `Message.is_response`; `ConstsC18.*` is regenerated from the working tree on every run.  Scripts are arbitrary
 lists: of datagrams (source address, what the parser finds in them) and would-block waits for UDP, of `recv`
 results (chunk, would-block, EOF) and `send` results (k octets accepted, would-block) for streams; the deadline
-is arbitrary.  `coe = false` is `dns.query`; `coe = true` is `dns.asyncquery.receive_udp` as shipped
-(`continue_on_error=ignore_errors`), for which the "malformed is never returned" clause is refuted below.
+is arbitrary.  A datagram is its octets plus what the message reader finds after the 12-octet header; "shorter
+than a header", id, QR, opcode, TC are read by the model from the octets themselves.  `dns.asyncquery` has its
+own model functions (`readExactlyA`, `receiveFrameA`, `receiveTcpA`, `sendTcpA`, `tcpA`, `receiveUdpA`, `udpA`,
+`udpWithFallbackA`: backend calls with a per-call timeout) and its own theorems (`…_async`).  `coe = true` is
+`dns.asyncquery.receive_udp` before repair 3f2b73a (`continue_on_error=ignore_errors`).
 -/
 namespace C18
 open Model Model.Net
@@ -45,18 +50,70 @@ theorem addresses_equal_binary (af : Nat) (a b : Addr) :
       ∃ n, inetPton af a.host = .ok n ∧ inetPton af b.host = .ok n ∧ a.rest = b.rest :=
   addressesEqual_iff af a b
 
+/-- The flag tests the acceptance predicate makes (`flags & QR`, `flags & TC`, `opcode.from_flags`) are bits 15,
+9 and 14..11 of the flags word — and, the word being octets 2 and 3 of the datagram, bit 7, bit 1 and bits 6..3
+of octet 2. -/
+theorem flag_tests_are_header_bits (f o2 o3 : Nat) (h2 : o2 < 256) (h3 : o3 < 256) :
+    (qr f = true ↔ f / 32768 % 2 = 1) ∧ (tc f = true ↔ f / 512 % 2 = 1) ∧ opcodeOf f = f / 2048 % 16 ∧
+    (qr (o2 * 256 + o3) = true ↔ 128 ≤ o2) ∧ (tc (o2 * 256 + o3) = true ↔ o2 / 2 % 2 = 1) ∧
+    opcodeOf (o2 * 256 + o3) = o2 / 8 % 16 :=
+  ⟨qr_iff f, tc_iff f, opcodeOf_eq f, flags_octets o2 o3 h2 h3⟩
+
+/-- **`receive_udp`, every combination of its arguments**: all 32 settings of (`ignore_unexpected`,
+`one_rr_per_rrset`, `ignore_trailing`, `raise_on_truncation`, `ignore_errors`), with or without a `destination`
+(without: no source check at all, `no_destination_no_source_check`), with or without a `query`, any deadline, any
+script.  What it returns is the datagram at the reported position; with a destination it came from there; it has
+a full header whose id / flags are the returned ones, every section parsed, no unignored trailing octets, no TC
+when truncation is to be raised; and under `ignore_errors` with a query it is a response to that query. -/
+theorem receive_udp_returns (af : Nat) (dest : Option Addr) (exp : Option Nat) (o : UOpts) (query : Option Msg)
+    (script : List UEv) (now idx : Nat) (r : URet)
+    (h : receiveUdp false af dest exp o query script now idx = .ok r) :
+    idx ≤ r.idx ∧ ∃ w, (dgrams script)[r.idx - idx]? = some (r.src, w) ∧
+      (∀ d, dest = some d → SrcOk af r.src d) ∧
+      header w.octets = some (r.msg.id, r.msg.flags) ∧ w.body.broken = none ∧
+      r.msg.question = w.body.question ∧ r.msg.ednsflags = w.body.ednsflags ∧
+      (w.body.trailing = true → o.ignoreTrailing = true) ∧ (tc r.msg.flags && o.raiseOnTruncation) = false ∧
+      (o.ignoreErrors = true → ∀ q, query = some q → isResponse q r.msg = true) := by
+  obtain ⟨h1, w, h2, hj⟩ := receiveUdp_ok false af dest exp o query script now idx r h
+  obtain ⟨hm, hf, hr⟩ := (judge_accept_iff _ _ _ _ _ _ _ _).1 hj
+  simp only [Bool.false_and] at hf
+  obtain ⟨f1, f2, f3, f4, f5, f6⟩ := (fromWire_ok_iff w _ _ _).1 hf
+  refine ⟨h1, w, h2, ?_, f1, f4, f3, f2, f5, f6, ?_⟩
+  · intro d hd; subst hd; exact matchesDestination_true af _ d _ hm
+  · intro hie q hq; subst hq; simpa [rejects, hie] using hr
+
+/-- `destination=None`: no source check, whatever `ignore_unexpected` says. -/
+theorem no_destination_no_source_check (af : Nat) (src : Addr) (iu : Bool) :
+    matchesDestination af src none iu = .ok true := rfl
+
+/-- `one_rr_per_rrset` only shapes the sections of the parsed message: it changes nothing in what is accepted,
+skipped or raised. -/
+theorem one_rr_per_rrset_irrelevant (coe : Bool) (af : Nat) (dest : Option Addr) (exp : Option Nat) (o : UOpts)
+    (query : Option Msg) (b : Bool) (script : List UEv) (now idx : Nat) :
+    receiveUdp coe af dest exp { o with oneRrPerRrset := b } query script now idx =
+      receiveUdp coe af dest exp o query script now idx := by
+  induction script generalizing now idx with
+  | nil => rfl
+  | cons ev rest ih =>
+    cases ev with
+    | block dt => simp only [receiveUdp]; split <;> simp [ih]
+    | dgram src w =>
+      have : judge coe af dest { o with oneRrPerRrset := b } query src w = judge coe af dest o query src w := rfl
+      simp only [receiveUdp, this]; split <;> simp [ih]
+
 /-- **A UDP exchange returns only a genuine response.**  For every script of datagrams and waits, every option
 combination, every deadline and every send behaviour: if `udp()` returns, the message is a response to the query
 sent (`is_response`), it is the datagram at the reported position of the script, that datagram came from the
-queried address and port (binary comparison; or, for a multicast destination, from the queried port), and it
-was a complete, well-formed message (no unignored trailing octets; no TC when truncation is to be raised). -/
+queried address and port (binary comparison; or, for a multicast destination, from the queried port), it has a
+full header carrying the returned id and flags, and it was a complete, well-formed message (no unignored
+trailing octets; no TC when truncation is to be raised). -/
 theorem returned_is_response (q : Msg) (af : Nat) (dest : Addr) (timeout : Option Nat) (o : UOpts)
     (blocks : List Nat) (script : List UEv) (now : Nat) (r : URet)
     (h : udp false q af dest timeout o blocks script now = .ok r) :
     isResponse q r.msg = true ∧
     ∃ w, (dgrams script)[r.idx]? = some (r.src, w) ∧ SrcOk af r.src dest ∧
-      ∃ tr, w = .full r.msg tr ∧ (tr = true → o.ignoreTrailing = true) ∧
-        (tc r.msg.flags && o.raiseOnTruncation) = false := by
+      header w.octets = some (r.msg.id, r.msg.flags) ∧ w.body.broken = none ∧
+      (w.body.trailing = true → o.ignoreTrailing = true) ∧ (tc r.msg.flags && o.raiseOnTruncation) = false := by
   unfold udp at h
   cases hs : udpSend (expiration timeout now) blocks now with
   | error e => simp [hs] at h
@@ -65,62 +122,78 @@ theorem returned_is_response (q : Msg) (af : Nat) (dest : Addr) (timeout : Optio
     | error f => simp [hs, hr] at h
     | ok r' =>
       simp only [hs, hr] at h
-      obtain ⟨_, w, h2, h3, h4, h5⟩ := receiveUdp_ok false af (some dest) _ o (some q) script now1 0 r' hr
+      obtain ⟨_, w, h2, h3, h4, h5, _, _, h8, h9, h10⟩ := receive_udp_returns af (some dest) _ o (some q) script now1 0 r' hr
       have hresp : isResponse q r'.msg = true := by
         cases hie : o.ignoreErrors
         · rw [hie] at h
           cases hq : isResponse q r'.msg
           · simp [hq] at h
           · rfl
-        · simpa [rejects, hie] using h5
+        · exact h10 hie q rfl
       simp only [hresp, Bool.or_true, Bool.not_true] at h
       simp at h
       subst h
-      refine ⟨hresp, w, by simpa using h2, matchesDestination_true af _ dest _ h3, ?_⟩
-      simp only [Bool.false_and] at h4
-      exact (fromWire_ok_iff w _ _ _).1 h4
+      exact ⟨hresp, w, by simpa using h2, h3 dest rfl, h4, h5, h8, h9⟩
+
+/-- **…proved about the header octets.**  The datagram `udp()` returns has at least 12 octets; its first two are
+the query's id (big-endian); bit 7 of the third (QR) is set; bits 6..3 of the third are the query's opcode. -/
+theorem returned_header_octets (q : Msg) (af : Nat) (dest : Addr) (timeout : Option Nat) (o : UOpts)
+    (blocks : List Nat) (script : List UEv) (now : Nat) (r : URet)
+    (h : udp false q af dest timeout o blocks script now = .ok r) :
+    ∃ w, (dgrams script)[r.idx]? = some (r.src, w) ∧ 12 ≤ w.octets.length ∧
+      ∃ o0 o1 o2 o3 rest, w.octets = o0 :: o1 :: o2 :: o3 :: rest ∧ o0 * 256 + o1 = q.id ∧
+        (o2 < 256 → o3 < 256 → 128 ≤ o2 ∧ o2 / 8 % 16 = q.flags / 2048 % 16) := by
+  obtain ⟨hresp, w, h1, _, h3, _⟩ := returned_is_response q af dest timeout o blocks script now r h
+  obtain ⟨hl, o0, o1, o2, o3, rest, hw, hi, hf⟩ := header_some _ _ _ h3
+  obtain ⟨hqr, hid, hop, _⟩ := (isResponse_iff q r.msg).1 hresp
+  refine ⟨w, h1, hl, o0, o1, o2, o3, rest, hw, by omega, ?_⟩
+  intro h2 h3'
+  obtain ⟨f1, _, f3⟩ := flags_octets o2 o3 h2 h3'
+  rw [hf] at hqr hop
+  exact ⟨f1.1 hqr, by rw [← f3, ← hop, opcodeOf_eq]⟩
 
 /-- **Spoofed, mismatched or malformed datagrams are skipped or raise as configured.**  At any point of the
 exchange, for the datagram at the head of the script:
 (a) from a foreign source (binary addresses or ports differ, no multicast exemption): passed over under
 `ignore_unexpected`, `UnexpectedSource` otherwise;
-(b) from the queried address but malformed: passed over under `ignore_errors`, the parser's error otherwise;
+(b) from the right place (or no destination given) but malformed: passed over under `ignore_errors`, the parser's
+error otherwise;
 (c) well-formed but not a response to the query: passed over under `ignore_errors`; otherwise it is handed to
 `udp()`, which raises `BadResponse` (`bad_response_raised`).
 In no case is it returned by `udp()` (`returned_is_response`). -/
-theorem spoof_skipped_or_raised (af : Nat) (dest : Addr) (exp : Option Nat) (o : UOpts) (q : Msg)
+theorem spoof_skipped_or_raised (af : Nat) (dest : Addr) (odest : Option Addr) (exp : Option Nat) (o : UOpts) (q : Msg)
     (src : Addr) (w : Wire) (rest : List UEv) (now idx : Nat) :
     (∀ mc, addressesEqual af src dest = .ok false → isMulticast dest.host = .ok mc →
         (mc && src.rest == dest.rest) = false →
         receiveUdp false af (some dest) exp o (some q) (.dgram src w :: rest) now idx =
           if o.ignoreUnexpected then receiveUdp false af (some dest) exp o (some q) rest now (idx + 1)
-          else .error ⟨.unexpectedSource, idx + 1⟩) ∧
-    (matchesDestination af src (some dest) o.ignoreUnexpected = .ok true →
+          else .error ⟨.unexpectedSource, idx + 1, now⟩) ∧
+    (matchesDestination af src odest o.ignoreUnexpected = .ok true →
         fromWire w o.ignoreTrailing o.raiseOnTruncation false = .error .formError →
-        receiveUdp false af (some dest) exp o (some q) (.dgram src w :: rest) now idx =
-          if o.ignoreErrors then receiveUdp false af (some dest) exp o (some q) rest now (idx + 1)
-          else .error ⟨.formError, idx + 1⟩) ∧
-    (matchesDestination af src (some dest) o.ignoreUnexpected = .ok true →
+        receiveUdp false af odest exp o (some q) (.dgram src w :: rest) now idx =
+          if o.ignoreErrors then receiveUdp false af odest exp o (some q) rest now (idx + 1)
+          else .error ⟨.formError, idx + 1, now⟩) ∧
+    (matchesDestination af src odest o.ignoreUnexpected = .ok true →
         fromWire w o.ignoreTrailing o.raiseOnTruncation false = .error .other →
-        receiveUdp false af (some dest) exp o (some q) (.dgram src w :: rest) now idx =
-          if o.ignoreErrors then receiveUdp false af (some dest) exp o (some q) rest now (idx + 1)
-          else .error ⟨.otherParse, idx + 1⟩) ∧
-    (∀ m, matchesDestination af src (some dest) o.ignoreUnexpected = .ok true →
+        receiveUdp false af odest exp o (some q) (.dgram src w :: rest) now idx =
+          if o.ignoreErrors then receiveUdp false af odest exp o (some q) rest now (idx + 1)
+          else .error ⟨.otherParse, idx + 1, now⟩) ∧
+    (∀ m, matchesDestination af src odest o.ignoreUnexpected = .ok true →
         fromWire w o.ignoreTrailing o.raiseOnTruncation false = .ok m → isResponse q m = false →
-        receiveUdp false af (some dest) exp o (some q) (.dgram src w :: rest) now idx =
-          if o.ignoreErrors then receiveUdp false af (some dest) exp o (some q) rest now (idx + 1)
+        receiveUdp false af odest exp o (some q) (.dgram src w :: rest) now idx =
+          if o.ignoreErrors then receiveUdp false af odest exp o (some q) rest now (idx + 1)
           else .ok ⟨idx, m, src, now⟩) := by
   refine ⟨?_, ?_, ?_, ?_⟩
   · intro mc h1 h2 h3
     have hm := matchesDestination_foreign af src dest o.ignoreUnexpected mc h1 h2 h3
-    simp only [receiveUdp, hm]
+    simp only [receiveUdp, judge, hm]
     cases o.ignoreUnexpected <;> simp
   · intro hm hf
-    cases hie : o.ignoreErrors <;> simp [receiveUdp, hm, hf, hie]
+    cases hie : o.ignoreErrors <;> simp [receiveUdp, judge, hm, hf, hie]
   · intro hm hf
-    cases hie : o.ignoreErrors <;> simp [receiveUdp, hm, hf, hie]
+    cases hie : o.ignoreErrors <;> simp [receiveUdp, judge, hm, hf, hie]
   · intro m hm hf hr
-    cases hie : o.ignoreErrors <;> simp [receiveUdp, hm, hf, hie, rejects, hr]
+    cases hie : o.ignoreErrors <;> simp [receiveUdp, judge, hm, hf, hie, rejects, hr]
 
 /-- (c) continued: without `ignore_errors`, a well-formed non-response that `receive_udp` hands back makes
 `udp()` raise `BadResponse`. -/
@@ -129,13 +202,13 @@ theorem bad_response_raised (q : Msg) (af : Nat) (dest : Addr) (timeout : Option
     (hs : udpSend (expiration timeout now) blocks now = .ok now1)
     (hr : receiveUdp false af (some dest) (expiration timeout now) o (some q) script now1 0 = .ok r)
     (hie : o.ignoreErrors = false) (hn : isResponse q r.msg = false) :
-    udp false q af dest timeout o blocks script now = .error ⟨.badResponse, r.idx + 1⟩ := by
+    udp false q af dest timeout o blocks script now = .error ⟨.badResponse, r.idx + 1, r.recvTime⟩ := by
   simp [udp, hs, hr, hie, hn]
 
 /-- **Bad datagrams preceding the real reply.**  If every datagram of a prefix is one that the options pass
-over (foreign source under `ignore_unexpected`; malformed or mismatched under `ignore_errors`) and the next
-datagram is a genuine reply from the queried address, `udp()` returns that reply (position = length of the
-prefix) — however long the prefix. -/
+over (`skipped_iff`: foreign source under `ignore_unexpected`; malformed or mismatched under `ignore_errors`) and
+the next datagram is a genuine reply from the queried address, `udp()` returns that reply (position = length of
+the prefix) — however long the prefix. -/
 theorem reply_after_spoofed_prefix (q : Msg) (af : Nat) (dest : Addr) (timeout : Option Nat) (o : UOpts)
     (blocks : List Nat) (pre : List (Addr × Wire)) (src : Addr) (w : Wire) (m : Msg) (rest : List UEv) (now now1 : Nat)
     (hs : udpSend (expiration timeout now) blocks now = .ok now1)
@@ -148,32 +221,37 @@ theorem reply_after_spoofed_prefix (q : Msg) (af : Nat) (dest : Addr) (timeout :
   unfold udp
   simp only [hs]
   rw [receiveUdp_skip_prefix false af (some dest) _ o (some q) pre _ now1 0 hpre]
-  simp [receiveUdp, hsrc, hw, rejects, hresp]
+  simp [receiveUdp, judge, hsrc, hw, rejects, hresp]
+
+/-- the message the reader has in hand when it raises `Truncated`: header fields from the octets, the rest as
+far as the body got -/
+def partialMsg (w : Wire) (id flags : Nat) : Msg := ⟨id, flags, w.body.ednsflags, w.body.question⟩
 
 /-- **A genuine truncated reply is reported as truncation when asked; a forged one is not.**  With
-`raise_on_truncation`, a datagram from the queried address whose header has TC set and whose (possibly partial)
-message is a response to the query raises `Truncated` — with or without `ignore_errors`, whether the body
-parsed, was cut short, or had trailing octets.  If that message is *not* a response to the query, then under
-`ignore_errors` it is passed over (an injected TC packet cannot end the exchange). -/
-theorem truncation_reported (af : Nat) (dest : Addr) (exp : Option Nat) (o : UOpts) (q : Msg)
-    (src : Addr) (w : Wire) (pm : Msg) (rest : List UEv) (now idx : Nat)
-    (hsrc : matchesDestination af src (some dest) o.ignoreUnexpected = .ok true)
-    (hrt : o.raiseOnTruncation = true) (htc : tc pm.flags = true)
-    (hw : (∃ tr, w = .full pm tr) ∨ w = .broken pm true) :
-    (isResponse q pm = true →
-      receiveUdp false af (some dest) exp o (some q) (.dgram src w :: rest) now idx = .error ⟨.truncated, idx + 1⟩) ∧
-    (isResponse q pm = false → o.ignoreErrors = true →
-      receiveUdp false af (some dest) exp o (some q) (.dgram src w :: rest) now idx =
-        receiveUdp false af (some dest) exp o (some q) rest now (idx + 1)) := by
-  have hf : fromWire w o.ignoreTrailing o.raiseOnTruncation false = .error (.truncated pm) := by
-    rcases hw with ⟨tr, rfl⟩ | rfl
-    · cases tr <;> cases o.ignoreTrailing <;> simp [fromWire, htc, hrt]
-    · simp [fromWire, htc, hrt]
+`raise_on_truncation`, a datagram from the queried address whose header octets carry TC and whose (possibly
+partial) message is a response to the query raises `Truncated` — with or without `ignore_errors`, whether the
+body parsed, was cut short (`FormError` family), or had trailing octets.  If that message is *not* a response to
+the query, then under `ignore_errors` it is passed over (an injected TC packet cannot end the exchange). -/
+theorem truncation_reported (af : Nat) (dest : Option Addr) (exp : Option Nat) (o : UOpts) (q : Msg)
+    (src : Addr) (w : Wire) (id flags : Nat) (rest : List UEv) (now idx : Nat)
+    (hsrc : matchesDestination af src dest o.ignoreUnexpected = .ok true)
+    (hrt : o.raiseOnTruncation = true) (hh : header w.octets = some (id, flags)) (htc : tc flags = true)
+    (hw : w.body.broken = none ∨ w.body.broken = some true) :
+    (isResponse q (partialMsg w id flags) = true →
+      receiveUdp false af dest exp o (some q) (.dgram src w :: rest) now idx = .error ⟨.truncated, idx + 1, now⟩) ∧
+    (isResponse q (partialMsg w id flags) = false → o.ignoreErrors = true →
+      receiveUdp false af dest exp o (some q) (.dgram src w :: rest) now idx =
+        receiveUdp false af dest exp o (some q) rest now (idx + 1)) := by
+  have hf : fromWire w o.ignoreTrailing o.raiseOnTruncation false = .error (.truncated (partialMsg w id flags)) := by
+    unfold fromWire partialMsg
+    rcases hw with hb | hb
+    · cases ht : w.body.trailing <;> cases o.ignoreTrailing <;> simp [hh, hb, htc, hrt]
+    · simp [hh, hb, htc, hrt]
   constructor
   · intro hr
-    cases hie : o.ignoreErrors <;> simp [receiveUdp, hsrc, hf, hie, rejects, hr]
+    cases hie : o.ignoreErrors <;> simp [receiveUdp, judge, hsrc, hf, hie, rejects, hr]
   · intro hr hie
-    simp [receiveUdp, hsrc, hf, hie, rejects, hr]
+    simp [receiveUdp, judge, hsrc, hf, hie, rejects, hr]
 
 /-- **Stream reassembly under every fragmentation of reads.**  Let the peer's stream be the two-octet length of
 `m`, then `m`, then anything (`tail`).  For *every* way of delivering that stream — any split into chunks, any
@@ -286,8 +364,8 @@ theorem eof_or_deadline_is_error (evs : List REv) (exp : Option Nat) (now : Nat)
 (whatever follows in the script), and so does a silent peer when there is a deadline; nothing is returned. -/
 theorem udp_deadline_is_error (coe : Bool) (af : Nat) (dest : Option Addr) (o : UOpts) (query : Option Msg)
     (rest : List UEv) (now idx dt d : Nat) (hd : d ≤ now + dt) :
-    receiveUdp coe af dest (some d) o query (.block dt :: rest) now idx = .error ⟨.timeout, idx⟩ ∧
-    receiveUdp coe af dest (some d) o query [] now idx = .error ⟨.timeout, idx⟩ := by
+    (∃ t, receiveUdp coe af dest (some d) o query (.block dt :: rest) now idx = .error ⟨.timeout, idx, t⟩) ∧
+    (∃ t, receiveUdp coe af dest (some d) o query [] now idx = .error ⟨.timeout, idx, t⟩) := by
   have : waitFor (some d) now dt = .error .timeout := by
     simp only [waitFor]
     split
@@ -295,100 +373,354 @@ theorem udp_deadline_is_error (coe : Bool) (af : Nat) (dest : Option Addr) (o : 
     · split
       · omega
       · rfl
-  simp [receiveUdp, this, starved]
+  exact ⟨⟨giveUpClock (some d) now, by simp [receiveUdp, this]⟩, ⟨giveUpClock (some d) now, by simp [receiveUdp, starved]⟩⟩
 
 /-- **A TCP exchange returns only a genuine response, exactly framed.**  For every send and receive script and
 deadline: if `tcp()` returns, the message is a response to the query, the socket was given exactly the
-length-prefixed query, the message is the parse of exactly the first length-prefixed message of the stream, and
-that message was complete and well formed. -/
-theorem returned_is_response_tcp (q : Msg) (qwire : Bytes) (timeout : Option Nat) (it : Bool) (parse : Bytes → Wire)
+length-prefixed query, the message is the parse of exactly the first length-prefixed message of the stream (id
+and flags read from that frame's own header octets), and that message was complete and well formed. -/
+theorem returned_is_response_tcp (q : Msg) (qwire : Bytes) (timeout : Option Nat) (it : Bool) (body : Bytes → Body)
     (sevs : List SEv) (revs : List REv) (now : Nat) (sent : Bytes) (r : TRet)
-    (h : tcp q qwire timeout it parse sevs revs now = (sent, .ok r)) :
+    (h : tcp q qwire timeout it body sevs revs now = (sent, .ok r)) :
     isResponse q r.msg = true ∧ sent = be16 qwire.length ++ qwire ∧
     (∃ ld, ld.length = 2 ∧ r.frame.length = beVal ld ∧ stream revs = ld ++ r.frame ++ stream r.rest) ∧
-    ∃ tr, parse r.frame = .full r.msg tr ∧ (tr = true → it = true) := by
+    header r.frame = some (r.msg.id, r.msg.flags) ∧ (body r.frame).broken = none ∧
+    ((body r.frame).trailing = true → it = true) := by
   unfold tcp at h
   simp only at h
-  split at h
-  · simp at h
-  · rename_i sent' evs1 now1 hsend
-    have hsent : sent' = be16 qwire.length ++ qwire := by
-      have := (framing_invariant_write qwire sevs (expiration timeout now) now).2.1 ⟨_, by rw [hsend]⟩
-      rw [hsend] at this; exact this
-    split at h
-    · simp at h
-    · rename_i r' hrecv
-      split at h
-      · simp at h
-      · rename_i hresp
-        simp only [Prod.mk.injEq, Except.ok.injEq] at h
-        obtain ⟨rfl, rfl⟩ := h
-        unfold receiveTcp at hrecv
-        split at hrecv
-        · simp at hrecv
-        · rename_i frame rest now2 hframe
-          split at hrecv
-          · simp at hrecv
-          · simp at hrecv
-          · simp at hrecv
-          · rename_i m hf
-            simp only [Except.ok.injEq] at hrecv
-            subst hrecv
-            refine ⟨by simpa using hresp, hsent, frame_sound _ _ _ _ _ _ hframe, ?_⟩
-            obtain ⟨tr, h1, h2, _⟩ := (fromWire_ok_iff _ _ _ _).1 hf
-            exact ⟨tr, h1, h2⟩
+  cases hsend : sendTcp qwire sevs (expiration timeout now) now with
+  | mk sent' res =>
+    cases res with
+    | error e => simp [hsend] at h
+    | ok v =>
+      obtain ⟨evs1, now1⟩ := v
+      have hsent : sent' = be16 qwire.length ++ qwire := by
+        have := (framing_invariant_write qwire sevs (expiration timeout now) now).2.1 ⟨_, by rw [hsend]⟩
+        rw [hsend] at this; exact this
+      simp only [hsend] at h
+      cases hrecv : receiveTcp body it revs (expiration timeout now) now1 with
+      | error e => simp [hrecv] at h
+      | ok r' =>
+        simp only [hrecv] at h
+        cases hresp : isResponse q r'.msg with
+        | false => simp [hresp] at h
+        | true =>
+          simp [hresp] at h
+          obtain ⟨rfl, rfl⟩ := h
+          unfold receiveTcp at hrecv
+          cases hframe : receiveFrame revs (expiration timeout now) now1 with
+          | error e => simp [hframe] at hrecv
+          | ok v =>
+            obtain ⟨frame, rest, now2⟩ := v
+            simp only [hframe] at hrecv
+            cases hp : parseFrame body it false frame with
+            | error e => simp [hp] at hrecv
+            | ok m =>
+              simp [hp] at hrecv
+              subst hrecv
+              unfold parseFrame at hp
+              cases hf : fromWire ⟨frame, body frame⟩ it false false with
+              | error e => cases e <;> simp [hf] at hp
+              | ok m' =>
+                simp [hf] at hp; subst hp
+                obtain ⟨f1, _, _, f4, f5, _⟩ := (fromWire_ok_iff _ _ _ _).1 hf
+                exact ⟨hresp, hsent, frame_sound _ _ _ _ _ _ hframe, f1, f4, f5⟩
 
-/-- The unchanged tree's `dns.asyncquery.receive_udp` calls the parser with `continue_on_error=ignore_errors`
-(`coe = true`).  For that variant the clause "malformed datagrams … are never returned" **fails**: a datagram
-from the queried address with the right id and question but a cut answer record is returned under
-`ignore_errors`, although the genuine reply follows.  (`dns.query`, `coe = false`, skips it and returns the
-genuine reply: `returned_is_response`.) -/
-theorem async_as_shipped_returns_malformed :
+/-! ## `udp_with_fallback` -/
+
+/-- **TCP is used only after a truncation.**  If the UDP phase of `udp_with_fallback` (`udp()` with
+`raise_on_truncation=True`) returns a message, that message is the result, `used_tcp` is `False` and the TCP
+socket is never touched; if it raises anything but `Truncated`, that error is the result and the TCP socket is
+never touched. -/
+theorem fallback_tcp_only_after_truncation (q : Msg) (qwire : Bytes) (af : Nat) (dest : Addr) (timeout : Option Nat)
+    (o : UOpts) (blocks : List Nat) (script : List UEv) (body : Bytes → Body) (sevs : List SEv) (revs : List REv) (now : Nat) :
+    (∀ r, udp false q af dest timeout { o with raiseOnTruncation := true } blocks script now = .ok r →
+      udpWithFallback q qwire af dest timeout o blocks script body sevs revs now = ([], .ok ⟨r.msg, false, r.recvTime - now⟩)) ∧
+    (∀ f, udp false q af dest timeout { o with raiseOnTruncation := true } blocks script now = .error f →
+      f.err ≠ .truncated →
+      udpWithFallback q qwire af dest timeout o blocks script body sevs revs now = ([], .error f.err)) := by
+  constructor
+  · intro r h; simp [udpWithFallback, h]
+  · intro f h hne
+    obtain ⟨e, i, t⟩ := f
+    cases e <;> simp_all [udpWithFallback]
+
+/-- **A truncated UDP reply leads to exactly one TCP exchange with the same query.**  If the UDP phase raises
+`Truncated` (at clock `t`), the result of `udp_with_fallback` is the result of `tcp()` for the *same* query,
+started at `t` with a fresh deadline, `used_tcp = True`.  Consequently (by `returned_is_response_tcp` and
+`framing_invariant_write`): what the TCP socket is given is a prefix of one length-prefixed copy of the query —
+on success exactly one copy — and the message returned is a response to the query, parsed from exactly the first
+length-prefixed message of the TCP stream. -/
+theorem fallback_one_tcp_exchange (q : Msg) (qwire : Bytes) (af : Nat) (dest : Addr) (timeout : Option Nat)
+    (o : UOpts) (blocks : List Nat) (script : List UEv) (body : Bytes → Body) (sevs : List SEv) (revs : List REv) (now i t : Nat)
+    (h : udp false q af dest timeout { o with raiseOnTruncation := true } blocks script now = .error ⟨.truncated, i, t⟩) :
+    udpWithFallback q qwire af dest timeout o blocks script body sevs revs now =
+        asFallback t (tcp q qwire timeout o.ignoreTrailing body sevs revs t) ∧
+    (∃ k, (udpWithFallback q qwire af dest timeout o blocks script body sevs revs now).1 = (be16 qwire.length ++ qwire).take k) ∧
+    (∀ fr, (udpWithFallback q qwire af dest timeout o blocks script body sevs revs now).2 = .ok fr →
+      fr.usedTcp = true ∧ isResponse q fr.msg = true ∧
+      (udpWithFallback q qwire af dest timeout o blocks script body sevs revs now).1 = be16 qwire.length ++ qwire) := by
+  have e1 : udpWithFallback q qwire af dest timeout o blocks script body sevs revs now =
+      asFallback t (tcp q qwire timeout o.ignoreTrailing body sevs revs t) := by
+    simp [udpWithFallback, h]
+  cases ht : tcp q qwire timeout o.ignoreTrailing body sevs revs t with
+  | mk sent res =>
+    have hpre : ∃ k, sent = (be16 qwire.length ++ qwire).take k := by
+      have : sent = (tcp q qwire timeout o.ignoreTrailing body sevs revs t).1 := by rw [ht]
+      rw [this]
+      unfold tcp
+      simp only
+      obtain ⟨k, hk⟩ := (framing_invariant_write qwire sevs (expiration timeout t) t).1
+      cases hs : sendTcp qwire sevs (expiration timeout t) t with
+      | mk s' r' =>
+        rw [hs] at hk
+        cases r' with
+        | error e => exact ⟨k, hk⟩
+        | ok v =>
+          simp only
+          split <;> (try split) <;> exact ⟨k, hk⟩
+    cases res with
+    | error e =>
+      rw [e1, ht]
+      exact ⟨rfl, hpre, by intro fr hfr; simp [asFallback] at hfr⟩
+    | ok r =>
+      rw [e1, ht]
+      refine ⟨rfl, hpre, ?_⟩
+      intro fr hfr
+      simp [asFallback] at hfr; subst hfr
+      obtain ⟨g1, g2, _⟩ := returned_is_response_tcp q qwire timeout o.ignoreTrailing body sevs revs t sent r ht
+      exact ⟨rfl, g1, g2⟩
+
+/-- **End to end**: spoofed / mismatched / malformed datagrams that the options pass over, then a genuine
+truncated reply from the queried address ⇒ `udp_with_fallback` is the TCP exchange with the same query started at
+the moment that reply arrived. -/
+theorem truncated_reply_falls_back (q : Msg) (qwire : Bytes) (af : Nat) (dest : Addr) (timeout : Option Nat)
+    (o : UOpts) (blocks : List Nat) (pre : List (Addr × Wire)) (src : Addr) (w : Wire) (id flags : Nat) (rest : List UEv)
+    (body : Bytes → Body) (sevs : List SEv) (revs : List REv) (now now1 : Nat)
+    (hs : udpSend (expiration timeout now) blocks now = .ok now1)
+    (hpre : ∀ p ∈ pre, Skipped false af (some dest) { o with raiseOnTruncation := true } (some q) p.1 p.2)
+    (hsrc : matchesDestination af src (some dest) o.ignoreUnexpected = .ok true)
+    (hh : header w.octets = some (id, flags)) (htc : tc flags = true)
+    (hw : w.body.broken = none ∨ w.body.broken = some true)
+    (hresp : isResponse q (partialMsg w id flags) = true) :
+    udpWithFallback q qwire af dest timeout o blocks (pre.map (fun p => UEv.dgram p.1 p.2) ++ .dgram src w :: rest)
+        body sevs revs now = asFallback now1 (tcp q qwire timeout o.ignoreTrailing body sevs revs now1) := by
+  have hudp : udp false q af dest timeout { o with raiseOnTruncation := true } blocks
+      (pre.map (fun p => UEv.dgram p.1 p.2) ++ .dgram src w :: rest) now = .error ⟨.truncated, pre.length + 1, now1⟩ := by
+    unfold udp
+    simp only [hs]
+    rw [receiveUdp_skip_prefix false af (some dest) _ _ (some q) pre _ now1 0 hpre]
+    have := (truncation_reported af (some dest) (expiration timeout now) { o with raiseOnTruncation := true } q src w id flags
+      rest now1 (0 + pre.length) hsrc rfl hh htc hw).1 hresp
+    rw [this]
+    simp
+  exact (fallback_one_tcp_exchange q qwire af dest timeout o blocks _ body sevs revs now _ _ hudp).1
+
+/-! ## `dns.asyncquery` -/
+
+/-- `dns.asyncquery._read_exactly` (a loop of backend `recv(count, timeout)` calls, the timeout recomputed
+before each call and spent inside it) returns, for every script, count, deadline and clock, exactly what
+`dns.query._net_read` returns; so does the framing half of `receive_tcp`. -/
+theorem read_exactly_refines_net_read (evs : List REv) (count : Nat) (exp : Option Nat) (now : Nat) :
+    readExactly evs count exp now = netRead evs count exp now [] ∧
+    receiveFrameA evs exp now = receiveFrame evs exp now :=
+  ⟨readExactly_eq evs count exp now, receiveFrameA_eq evs exp now⟩
+
+/-- **Stream reassembly under every fragmentation, `dns.asyncquery`.**  As `framing_invariant`, for
+`dns.asyncquery.receive_tcp`'s framing over a backend socket; and soundness for every script whatsoever
+(`frame_sound`): never a short message. -/
+theorem framing_invariant_async (m tail : Bytes) (hm : m.length < 65536) (evs : List REv) (exp : Option Nat) (now : Nat)
+    (hclean : Clean evs) (hdl : ∀ e, exp = some e → now + blockTimeR evs < e)
+    (hs : stream evs = be16 m.length ++ m ++ tail) :
+    (∃ evs' now', receiveFrameA evs exp now = .ok (m, evs', now') ∧ stream evs' = tail) ∧
+    (∀ evs0 exp0 now0 frame evs' now', receiveFrameA evs0 exp0 now0 = .ok (frame, evs', now') →
+      ∃ ld, ld.length = 2 ∧ frame.length = beVal ld ∧ stream evs0 = ld ++ frame ++ stream evs') := by
+  constructor
+  · rw [receiveFrameA_eq]; exact framing_invariant m tail hm evs exp now hclean hdl hs
+  · intro evs0 exp0 now0 frame evs' now' h
+    rw [receiveFrameA_eq] at h; exact frame_sound _ _ _ _ _ _ h
+
+/-- **Early end of stream or an expired deadline is an error, `dns.asyncquery`.** -/
+theorem eof_or_deadline_is_error_async (evs : List REv) (exp : Option Nat) (now : Nat)
+    (h : (stream evs).length < 2 ∨ (stream evs).length < 2 + beVal ((stream evs).take 2)) :
+    ∃ e, receiveFrameA evs exp now = .error e ∧ (e = .eof ∨ e = .timeout ∨ e = .exhausted) := by
+  rw [receiveFrameA_eq]; exact (eof_or_deadline_is_error evs exp now).1 h
+
+/-- `dns.asyncquery.send_tcp`: the backend's `sendall` is given exactly the two-octet length then the message. -/
+theorem send_tcp_async_frames (wire : Bytes) (blocks : List Nat) (exp : Option Nat) (now : Nat) :
+    (sendTcpA wire blocks exp now).1 = [] ∨ (sendTcpA wire blocks exp now).1 = be16 wire.length ++ wire := by
+  unfold sendTcpA
+  cases sendB blocks (timeoutOf exp now) now with
+  | error e => left; rfl
+  | ok n => right; rfl
+
+/-- **An async UDP exchange is the same exchange.**  `dns.asyncquery.udp` (backend `sendto` / `recvfrom` with
+per-call timeouts) returns, skips and raises exactly as `dns.query.udp` does, for every script, option
+combination and deadline; hence every theorem above about `udp` holds for it — in particular: -/
+theorem returned_is_response_async (q : Msg) (af : Nat) (dest : Addr) (timeout : Option Nat) (o : UOpts)
+    (blocks : List Nat) (script : List UEv) (now : Nat) :
+    udpA false q af dest timeout o blocks script now = udp false q af dest timeout o blocks script now ∧
+    ∀ r, udpA false q af dest timeout o blocks script now = .ok r →
+      isResponse q r.msg = true ∧
+      ∃ w, (dgrams script)[r.idx]? = some (r.src, w) ∧ SrcOk af r.src dest ∧
+        header w.octets = some (r.msg.id, r.msg.flags) ∧ w.body.broken = none ∧
+        (w.body.trailing = true → o.ignoreTrailing = true) ∧ (tc r.msg.flags && o.raiseOnTruncation) = false := by
+  refine ⟨udpA_eq _ _ _ _ _ _ _ _ _, ?_⟩
+  intro r h
+  rw [udpA_eq] at h
+  exact returned_is_response q af dest timeout o blocks script now r h
+
+/-- **An async TCP exchange returns only a genuine response, exactly framed.** -/
+theorem returned_is_response_async_tcp (q : Msg) (qwire : Bytes) (timeout : Option Nat) (it : Bool) (body : Bytes → Body)
+    (blocks : List Nat) (revs : List REv) (now : Nat) (sent : Bytes) (r : TRet)
+    (h : tcpA q qwire timeout it body blocks revs now = (sent, .ok r)) :
+    isResponse q r.msg = true ∧ sent = be16 qwire.length ++ qwire ∧
+    (∃ ld, ld.length = 2 ∧ r.frame.length = beVal ld ∧ stream revs = ld ++ r.frame ++ stream r.rest) ∧
+    header r.frame = some (r.msg.id, r.msg.flags) ∧ (body r.frame).broken = none ∧
+    ((body r.frame).trailing = true → it = true) := by
+  unfold tcpA sendTcpA at h
+  simp only at h
+  cases hsend : sendB blocks (timeoutOf (expiration timeout now) now) now with
+  | error e => obtain ⟨e1, e2⟩ := e; simp [hsend] at h
+  | ok now1 =>
+    simp only [hsend] at h
+    cases hrecv : receiveTcpA body it false revs (expiration timeout now) now1 with
+    | error e => simp [hrecv] at h
+    | ok r' =>
+      simp only [hrecv] at h
+      cases hresp : isResponse q r'.msg with
+      | false => simp [hresp] at h
+      | true =>
+        simp [hresp] at h
+        obtain ⟨rfl, rfl⟩ := h
+        unfold receiveTcpA at hrecv
+        rw [receiveFrameA_eq] at hrecv
+        cases hframe : receiveFrame revs (expiration timeout now) now1 with
+        | error e => simp [hframe] at hrecv
+        | ok v =>
+          obtain ⟨frame, rest, now2⟩ := v
+          simp only [hframe] at hrecv
+          cases hp : parseFrame body it false frame with
+          | error e => simp [hp] at hrecv
+          | ok m =>
+            simp [hp] at hrecv
+            subst hrecv
+            unfold parseFrame at hp
+            cases hf : fromWire ⟨frame, body frame⟩ it false false with
+            | error e => cases e <;> simp [hf] at hp
+            | ok m' =>
+              simp [hf] at hp; subst hp
+              obtain ⟨f1, _, _, f4, f5, _⟩ := (fromWire_ok_iff _ _ _ _).1 hf
+              exact ⟨hresp, rfl, frame_sound _ _ _ _ _ _ hframe, f1, f4, f5⟩
+
+/-- **`dns.asyncquery.udp_with_fallback`**: TCP only after a truncation, and then exactly one exchange with the
+same query. -/
+theorem fallback_async (q : Msg) (qwire : Bytes) (af : Nat) (dest : Addr) (timeout : Option Nat)
+    (o : UOpts) (blocks : List Nat) (script : List UEv) (body : Bytes → Body) (tb : List Nat) (revs : List REv) (now : Nat) :
+    (∀ r, udp false q af dest timeout { o with raiseOnTruncation := true } blocks script now = .ok r →
+      udpWithFallbackA q qwire af dest timeout o blocks script body tb revs now = ([], .ok ⟨r.msg, false, r.recvTime - now⟩)) ∧
+    (∀ f, udp false q af dest timeout { o with raiseOnTruncation := true } blocks script now = .error f →
+      f.err ≠ .truncated →
+      udpWithFallbackA q qwire af dest timeout o blocks script body tb revs now = ([], .error f.err)) ∧
+    (∀ i t, udp false q af dest timeout { o with raiseOnTruncation := true } blocks script now = .error ⟨.truncated, i, t⟩ →
+      udpWithFallbackA q qwire af dest timeout o blocks script body tb revs now =
+        asFallback t (tcpA q qwire timeout o.ignoreTrailing body tb revs t) ∧
+      ∀ fr, (udpWithFallbackA q qwire af dest timeout o blocks script body tb revs now).2 = .ok fr →
+        fr.usedTcp = true ∧ isResponse q fr.msg = true ∧
+        (udpWithFallbackA q qwire af dest timeout o blocks script body tb revs now).1 = be16 qwire.length ++ qwire) := by
+  refine ⟨?_, ?_, ?_⟩
+  · intro r h; simp [udpWithFallbackA, udpA_eq, h]
+  · intro f h hne
+    obtain ⟨e, i, t⟩ := f
+    cases e <;> simp_all [udpWithFallbackA, udpA_eq]
+  · intro i t h
+    have e1 : udpWithFallbackA q qwire af dest timeout o blocks script body tb revs now =
+        asFallback t (tcpA q qwire timeout o.ignoreTrailing body tb revs t) := by
+      simp [udpWithFallbackA, udpA_eq, h]
+    refine ⟨e1, ?_⟩
+    intro fr hfr
+    rw [e1] at hfr ⊢
+    cases ht : tcpA q qwire timeout o.ignoreTrailing body tb revs t with
+    | mk sent res =>
+      rw [ht] at hfr
+      cases res with
+      | error e => simp [asFallback] at hfr
+      | ok r =>
+        simp [asFallback] at hfr; subst hfr
+        obtain ⟨g1, g2, _⟩ := returned_is_response_async_tcp q qwire timeout o.ignoreTrailing body tb revs t sent r ht
+        exact ⟨rfl, g1, g2⟩
+
+/-- Why repair 3f2b73a mattered: with `continue_on_error=ignore_errors` (`coe = true`, what
+`dns.asyncquery.receive_udp` did before), the clause "malformed datagrams … are never returned" **fails**: a
+datagram from the queried address with the right id and question but a cut answer record is returned under
+`ignore_errors`, although the genuine reply follows.  The code as it is (`coe = false`) skips it. -/
+theorem continue_on_error_variant_returns_malformed :
     let q : Msg := ⟨4660, 256, 0, [⟨[[119, 119, 119], []], 1, 1⟩]⟩
-    let bad : Msg := ⟨4660, 33152, 0, [⟨[[119, 119, 119], []], 1, 1⟩]⟩
+    let hdr : Bytes := [18, 52, 129, 128, 0, 1, 0, 1, 0, 0, 0, 0]
+    let qs : List QEntry := [⟨[[119, 119, 119], []], 1, 1⟩]
+    let bad : Wire := ⟨hdr, ⟨qs, 0, some true, false⟩⟩
+    let good : Wire := ⟨hdr, ⟨qs, 0, none, false⟩⟩
+    let m : Msg := ⟨4660, 33152, 0, qs⟩
     let a : Addr := ⟨[49, 48, 46, 49, 46, 49, 46, 49], [53]⟩
     let o : UOpts := ⟨false, false, false, false, true⟩
-    let script := [UEv.dgram a (.broken bad true), UEv.dgram a (.full bad false)]
-    udp true q 2 a none o [] script 100 = .ok ⟨0, bad, a, 100⟩ ∧
-    udp false q 2 a none o [] script 100 = .ok ⟨1, bad, a, 100⟩ := by
-  intro q bad a o script
+    udp true q 2 a none o [] [.dgram a bad, .dgram a good] 100 = .ok ⟨0, m, a, 100⟩ ∧
+    udp false q 2 a none o [] [.dgram a bad, .dgram a good] 100 = .ok ⟨1, m, a, 100⟩ := by
+  intro q hdr qs bad good m a o
   decide
 
 /-! ## non-vacuity -/
 
-/-- `returned_is_response`, `reply_after_spoofed_prefix`: a forged-source datagram, a wrong-id datagram and a cut
-datagram precede the genuine reply, which is the one returned (position 3) -/
+/-- `returned_is_response`, `reply_after_spoofed_prefix`: a forged-source datagram, a wrong-id datagram, a
+datagram shorter than a header and a cut datagram precede the genuine reply, which is the one returned -/
 example :
     let q : Msg := ⟨4660, 256, 0, [⟨[[119, 119, 119], []], 1, 1⟩]⟩
-    let good : Msg := ⟨4660, 33152, 0, [⟨[[87, 87, 87], []], 1, 1⟩]⟩
+    let qs : List QEntry := [⟨[[87, 87, 87], []], 1, 1⟩]
+    let hdr : Bytes := [18, 52, 129, 128, 0, 1, 0, 1, 0, 0, 0, 0]
+    let good : Wire := ⟨hdr, ⟨qs, 0, none, false⟩⟩
     let a : Addr := ⟨[49, 48, 46, 49, 46, 49, 46, 49], [53]⟩
     let b : Addr := ⟨[49, 48, 46, 49, 46, 49, 46, 50], [53]⟩
     let o : UOpts := ⟨true, false, false, false, true⟩
-    udp false q 2 a (some 9) o [1] [.dgram b (.full good false), .block 2, .dgram a (.full { good with id := 4661 } false),
-      .dgram a (.broken good true), .dgram a (.full good false)] 100 = .ok ⟨3, good, a, 103⟩ := by
-  intro q good a b o; decide
+    udp false q 2 a (some 9) o [1] [.dgram b good, .block 2, .dgram a ⟨18 :: 53 :: hdr.drop 2, good.body⟩,
+      .dgram a ⟨[18, 52, 129], good.body⟩, .dgram a ⟨hdr, ⟨qs, 0, some true, false⟩⟩, .dgram a good] 100
+      = .ok ⟨4, ⟨4660, 33152, 0, qs⟩, a, 103⟩ := by
+  intro q qs hdr good a b o; decide
 
-/-- `truncation_reported`: hypotheses are satisfiable -/
+/-- `truncation_reported`, `truncated_reply_falls_back`: hypotheses are satisfiable -/
 example :
     let q : Msg := ⟨7, 0, 0, []⟩
-    let pm : Msg := ⟨7, 0x8200, 0, []⟩
+    let w : Wire := ⟨[0, 7, 130, 0, 0, 0, 0, 0, 0, 0, 0, 0], ⟨[], 0, some true, false⟩⟩
     let a : Addr := ⟨[49, 46, 50, 46, 51, 46, 52], [53]⟩
-    matchesDestination 2 a (some a) false = .ok true ∧ tc pm.flags = true ∧ isResponse q pm = true := by
-  intro q pm a; decide
+    matchesDestination 2 a (some a) false = .ok true ∧ header w.octets = some (7, 33280) ∧ tc 33280 = true ∧
+      isResponse q (partialMsg w 7 33280) = true := by
+  intro q w a; decide
+
+/-- `fallback_one_tcp_exchange`: a truncated reply, then the TCP exchange in three chunks -/
+example :
+    let q : Msg := ⟨7, 0, 0, []⟩
+    let a : Addr := ⟨[49, 46, 50, 46, 51, 46, 52], [53]⟩
+    let o : UOpts := ⟨false, false, false, false, false⟩
+    let hdrT : Bytes := [0, 7, 130, 0, 0, 0, 0, 0, 0, 0, 0, 0]
+    let hdr : Bytes := [0, 7, 128, 0, 0, 0, 0, 0, 0, 0, 0, 0]
+    udpWithFallback q [0, 7, 0, 0, 0, 0, 0, 0, 0, 0, 0, 0] 2 a none o [] [.dgram a ⟨hdrT, ⟨[], 0, none, false⟩⟩]
+      (fun _ => ⟨[], 0, none, false⟩) [.accept 5, .block 1, .accept 100] [.data [0], .data (12 :: hdr.take 5), .data (hdr.drop 5)] 50
+      = (0 :: 12 :: [0, 7, 0, 0, 0, 0, 0, 0, 0, 0, 0, 0], .ok ⟨⟨7, 32768, 0, []⟩, true, 1⟩) := by
+  intro q a o hdrT hdr; decide
 
 /-- `framing_invariant`: a stream cut into three chunks with waits, under a deadline, and a tail -/
 example :
     let evs := [REv.block 1, .data [0], .data [3, 9, 8], .block 2, .data [7, 1, 2]]
     Clean evs ∧ (∀ e, some 10 = some e → 0 + blockTimeR evs < e) ∧ stream evs = be16 3 ++ [9, 8, 7] ++ [1, 2] ∧
-    receiveFrame evs (some 10) 0 = .ok ([9, 8, 7], [.data [1, 2]], 3) := by
+    receiveFrame evs (some 10) 0 = .ok ([9, 8, 7], [.data [1, 2]], 3) ∧
+    receiveFrameA evs (some 10) 0 = .ok ([9, 8, 7], [.data [1, 2]], 3) := by
   intro evs
-  refine ⟨by simp [evs, Clean], by intro e h; cases h; decide, by decide, by decide⟩
+  refine ⟨by simp [evs, Clean], by intro e h; cases h; decide, by decide, by decide, by decide⟩
 
 /-- `eof_or_deadline_is_error`: a stream announcing 3 octets and ending after 2; and a deadline hit mid-message -/
 example : receiveFrame [.data [0, 3, 9], .data [8], .eof] none 0 = .error .eof ∧
-    receiveFrame [.data [0, 3, 9], .block 5, .data [8, 7]] (some 4) 0 = .error .timeout := by decide
+    receiveFrame [.data [0, 3, 9], .block 5, .data [8, 7]] (some 4) 0 = .error .timeout ∧
+    receiveFrameA [.data [0, 3, 9], .block 5, .data [8, 7]] (some 4) 0 = .error .timeout := by decide
 
-/-- `addresses_equal_binary`: two spellings of one IPv6 address compare equal; the mapped IPv4 form does not -/
+/-- `addresses_equal_binary`: two spellings of one IPv6 address compare equal; a different address does not -/
 example :
     addressesEqual 10 ⟨[58, 58, 49], [53, 0, 0]⟩ ⟨[48, 58, 48, 58, 48, 58, 48, 58, 48, 58, 48, 58, 48, 58, 48, 48, 48, 49], [53, 0, 0]⟩ = .ok true ∧
     addressesEqual 10 ⟨[58, 58, 49], [53, 0, 0]⟩ ⟨[58, 58, 50], [53, 0, 0]⟩ = .ok false := by decide
